@@ -4,6 +4,12 @@ pub mod c03;
 pub mod c07;
 pub mod c08;
 pub mod c09;
+pub mod c10;
+pub mod c11;
+pub mod c13;
+pub mod c14;
+pub mod c15;
+pub mod c18;
 pub mod c19;
 
 use crate::common::Ctx;
@@ -18,6 +24,12 @@ pub fn run(ctx: &Ctx, args: &[String]) -> i32 {
         "C08" => c08::run(ctx),
         "C09" => c09::run(ctx),
         "C19" => c19::run(ctx),
+        "C10" => c10::run(ctx),
+        "C11" => c11::run(ctx),
+        "C13" => c13::run(ctx),
+        "C14" => c14::run(ctx),
+        "C15" => c15::run(ctx),
+        "C18" => c18::run(ctx),
         "C03" => c03::run_c03(ctx),
         "C17" => c03::run_c17(ctx),
         "selfcheck" => selfcheck(ctx),
